@@ -217,6 +217,15 @@ func c13Cfgs() []Cfg {
 			out = append(out, c)
 		}
 	}
+	// a roomy file: batches and Puts share one file without rotating (a rotation flushes and hides unflushed bytes)
+	for _, sy := range []struct {
+		s   byte
+		bps uint
+	}{{1, 64}, {2, 40}, {2, 64}} {
+		c := defaultCfg
+		c.FileSize, c.Sync, c.BPS = 1000, sy.s, sy.bps
+		out = append(out, c)
+	}
 	return out
 }
 
